@@ -963,6 +963,31 @@ func firstLines(s string, n int) string {
 	return strings.Join(lines, " / ")
 }
 
+// RaceDeadlineArg is the -timeout of a free-running race-detector pass: far above its normal duration (seconds), so
+// that a body that hangs on the tree under check (real goroutines, no scheduler to call it a deadlock) does not hold
+// the check for go test's default ten minutes. Running into it is RECORDED, not alarmed (RaceDeadlineHit): deadlocks
+// are decided by the controlled exploration, exactly; a wall-clock deadline is never an oracle here.
+func RaceDeadlineArg(ctx *Ctx) string {
+	if ctx.Quick() {
+		return "-timeout=240s"
+	}
+	return "-timeout=1200s"
+}
+
+// RaceDeadlineHit records a free-running pass that ran into its deadline; true if the output shows one.
+func RaceDeadlineHit(ctx *Ctx, what, out string) bool {
+	if !strings.Contains(out, "test timed out after") {
+		return false
+	}
+	t := out
+	if len(t) > 600 {
+		t = t[:600]
+	}
+	ctx.Outcome("race-pass-deadline(recorded, not alarmed)")
+	ctx.Note("free-running " + what + " ran into its deadline (recorded, not alarmed; deadlocks are decided by the controlled exploration): " + firstLines(t, 6))
+	return true
+}
+
 // RacePass runs `go test -race` on one of the harness's free-running packages (unmodified code, real goroutines) and
 // turns a race report or a failing test into a violation on case k. The schedules are sampled by the Go scheduler:
 // this is the declared complement of the controlled exploration, which cannot see accesses between two
@@ -979,11 +1004,7 @@ func RacePass(ctx *Ctx, pkg, what string, quickCount, thoroughCount int, k inter
 	// must not hold the check for go test's default ten minutes: the pass gets a deadline far above its normal
 	// duration (seconds), and running into it is RECORDED, not alarmed - deadlocks are decided by the controlled
 	// exploration, exactly; a wall-clock deadline is never an oracle here.
-	if ctx.Quick() {
-		args = append(args, "-timeout=240s")
-	} else {
-		args = append(args, "-timeout=1200s")
-	}
+	args = append(args, RaceDeadlineArg(ctx))
 	if RepoDir != "/repo" {
 		args = append(args, "-modfile="+os.Getenv("VERIF_WORK")+"/go.mod")
 	}
@@ -1005,9 +1026,7 @@ func RacePass(ctx *Ctx, pkg, what string, quickCount, thoroughCount int, k inter
 			end = len(o)
 		}
 		ctx.Violate("data-race", "race detector report in free-running "+what+": "+o[i:end], k)
-	case err != nil && strings.Contains(o, "test timed out after"):
-		ctx.Outcome("race-pass-deadline(recorded, not alarmed)")
-		ctx.Note("free-running " + what + " ran into its deadline (recorded, not alarmed; deadlocks are decided by the controlled exploration): " + firstLines(tail, 6))
+	case err != nil && RaceDeadlineHit(ctx, what, o):
 	case err != nil && strings.Contains(o, "--- FAIL"):
 		ctx.Violate("wrong-output.free-running", "free-running "+what+" failed: "+tail, k)
 	case err != nil:
